@@ -183,17 +183,19 @@ def r2_ctor(rep, ctx):
         qok = any(a[0] == "param" and a[1] == 1 for a in alternatives(q)) and any(a[0] == "call" and a[1] == ("name", "ObtainQuantity") for a in alternatives(q))
         rep.check(qok, "C19.R2", "ctor:quantity", "the quantity is either the Quantity passed first or ObtainQuantity(unit, category)",
                   "the quantity handed to the internal constructor is %s" % show(q, 200), node=c, fn=init)
-    # the rotation itself happens under "first argument is not a str"
-    rot = [n for n in own_nodes(init.node) if isinstance(n, ast.Assign) and isinstance(n.targets[0], ast.Tuple) and isinstance(n.value, ast.Tuple)
-           and len(n.targets[0].elts) == 3 and len(n.value.elts) == 3]
-    if rot:
-        n = rot[0]
-        tg = [x.id if isinstance(x, ast.Name) else None for x in n.targets[0].elts]
-        vs = [x.id if isinstance(x, ast.Name) else None for x in n.value.elts]
-        mp = dict(zip(tg, vs))
-        ok = mp == {init.params[2]: init.params[1], init.params[3]: init.params[2], init.params[1]: init.params[3]}
+    # the value-first forms Scalar(value, unit, category): what reaches ObtainQuantity(unit, category) is the
+    # 3rd-or-2nd argument as unit and the 1st-or-3rd as category (positions of the constructor's parameters)
+    oq_calls = [c for c in own_nodes(init.node) if isinstance(c, ast.Call) and isinstance(c.func, ast.Name) and c.func.id == "ObtainQuantity" and len(c.args) == 2]
+    if not oq_calls:
+        raise AnalysisError("shared constructor: ObtainQuantity(unit, category) call not found")
+    for c in oq_calls:
+        u_alts = [a_ for a_ in alternatives(res.term(c.args[0])) if a_[0] == "param"]
+        c_alts = [a_ for a_ in alternatives(res.term(c.args[1])) if a_[0] == "param"]
+        up, cp = {a_[1] for a_ in u_alts}, {a_[1] for a_ in c_alts}
+        ok = up == {2, 3} and cp == {1, 3}
         rep.check(ok, "C19.R2", "ctor:rotation", "value-first forms rotate (value, unit, category) <- (1st, 2nd, 3rd argument)",
-                  "the positional rotation maps %s" % mp, node=n, fn=init)
+                  "ObtainQuantity receives its unit from argument position(s) %s (expected {2, 3}) and its category from %s (expected {1, 3}): the value-first construction forms do not build the same object as the category-first one" % (sorted(up), sorted(cp)),
+                  node=c, fn=init)
     # Scalar tuple form
     sinit = m.func("Scalar.__init__")
     sres = Resolver(m, sinit)
